@@ -51,6 +51,9 @@ pub fn run_sim(ctx: &mut Ctx, spec: &SimSpec, step: StepHook, after: &mut dyn Fn
     if spec.quiescence && report.completed && (0..w.cfg.n_clients).all(|i| w.conn_alive(i)) {
         quiescence(&mut w, ctx, step, spec.quiescence_memory)?;
     }
+    if w.insisted {
+        ctx.label("insisted_over_budget_send");
+    }
     for i in 0..w.cfg.n_clients {
         for to_client in [false, true] {
             let d = Dir { client: i, to_client };
